@@ -8,6 +8,7 @@ from spec import smpp as S
 
 ID = 'C04'
 TARGETS = ['SmppVerif.Props.C04']
+THOROUGH_ROUNDS = 8
 RULE = ('encoding direction: generated messages of all 15 classes (field space of C03) compared octet for octet with the '
         'independent encoder; decoding direction: PDUs built by the independent encoder in shapes the library never emits '
         '(TLVs in every order and before/after message_payload, bind_resp with and without sc_interface_version and without '
